@@ -1026,10 +1026,18 @@ Definition apply1 (s : state) (a : N) (o : out) : state :=
   let m2 := match o_new o with Some (a', A') => put m1 a' A' | None => m1 end in
   mkstate (o_s o) (notify_all (o_ntf o) m2).
 
+(* a step that hands a new handle to agent [a'] needs that identifier to be unused still
+   (identifiers are a modelling device: the environment picks a fresh one for every new handle) *)
+Definition new_ok (s : state) (a : N) (o : out) : bool :=
+  match o_new o with
+  | Some (a', _) => negb (a' =? a) && match get (ags s) a' with None => true | Some _ => false end
+  | None => true
+  end.
+
 Definition mstep (c : cfg) (s : state) (a : N) : option (state * list ev) :=
   match get (ags s) a with
   | Some A => match micro c a A (sh s) with
-              | Some o => Some (apply1 s a o, o_ev o)
+              | Some o => if new_ok s a o then Some (apply1 s a o, o_ev o) else None
               | None => None
               end
   | None => None
